@@ -201,7 +201,7 @@ func index(args map[string]string) error {
 				o := model[exist[rng.Intn(len(exist))]]
 				r := &mreg{id: o.id, s: o.s, e: o.e, ld: o.ld, size: o.size, vot: append([]int{}, o.vot...), lrn: append([]int{}, o.lrn...), pen: append([]int{}, o.pen...)}
 				peers := append(append([]int{}, r.vot...), r.lrn...)
-				switch rng.Intn(6) {
+				switch rng.Intn(7) {
 				case 0:
 					r.ld = r.vot[rng.Intn(len(r.vot))]
 				case 1: // pending set of the same size, different members when possible
@@ -228,6 +228,40 @@ func index(args map[string]string) error {
 						r.e = keyOf(r.s + 1 + rng.Intn(3))
 					} else if r.e-r.s > 1 {
 						r.e--
+					}
+				case 6: // one peer moves to a store that holds none and keeps its role (the numbers per role stay the same)
+					var free []int
+					for _, st := range stores {
+						held := false
+						for _, x := range peers {
+							held = held || x == st
+						}
+						if !held {
+							free = append(free, st)
+						}
+					}
+					if len(free) > 0 {
+						to := free[rng.Intn(len(free))]
+						list := &r.vot
+						if len(r.lrn) > 0 && (rng.Intn(2) == 0 || len(r.vot) == 1) {
+							list = &r.lrn
+						}
+						var cand []int
+						for i, st := range *list {
+							if st != r.ld {
+								cand = append(cand, i)
+							}
+						}
+						if len(cand) > 0 {
+							i := cand[rng.Intn(len(cand))]
+							from := (*list)[i]
+							(*list)[i] = to
+							for j, st := range r.pen {
+								if st == from {
+									r.pen[j] = to
+								}
+							}
+						}
 					}
 				}
 				apply(r)
